@@ -262,6 +262,8 @@ Definition sstep (s : sreg) (o : op) : sreg * sout :=
   | OpFmtType f => (s, match msgvalfmt_typeid f with Ok c => SNum (Z.of_N c) | _ => SRefused end)
   | OpFmtCode t => (s, SNum (msgvalfmt_code t))
   | OpSweep => (s, s_sweep s)
+  | OpWrapTraits t =>   (* C++ type_traits::get(int): a negative int names no type *)
+    (s, STraits (if (t <? 0)%Z then None else option_map d_info (s_get s (Z.to_N t))))
   end.
 
 Fixpoint srun (s : sreg) (ops : list op) : list sout :=
